@@ -5,9 +5,9 @@ package c12
 // Totality and consistency of ct.RawLogEntryFromLeaf / ct.LogEntryFromLeaf.
 
 import (
-	"time"
 	"bytes"
 	"fmt"
+	"time"
 
 	"verif/engine/enum"
 	"verif/ref/ct6962"
